@@ -23,7 +23,7 @@ pub fn model_bound(c: bool) {
     kani::assume(c)
 }
 
-#[cfg(kani)]
+#[cfg(all(kani, not(verif_nocover)))]
 #[macro_export]
 macro_rules! cover {
     ($c:expr, $m:literal) => {
@@ -31,7 +31,7 @@ macro_rules! cover {
     };
 }
 
-#[cfg(not(kani))]
+#[cfg(any(not(kani), verif_nocover))]
 #[macro_export]
 macro_rules! cover {
     ($c:expr, $m:literal) => {
